@@ -110,6 +110,18 @@ inductive Ev where
   | done (t : Nat)
   deriving Repr
 
+/-- the thread an event belongs to -/
+def Ev.tid : Ev → Nat
+  | .inv t _ _ _ | .alloc t _ | .ld t _ | .chk t _ | .rd t _ | .link t _ _ | .lcas t _ | .cas t _
+  | .free t _ | .ret t _ _ | .done t => t
+
+/-- Solo bound (follow-up C17t, `Props/C17Solo.lean`): the number of events — from `inv` to `ret`,
+    both included — within which an operation completes when its thread runs alone, from any
+    reachable state: a push needs at most 19 (`inv`, `alloc`, anchor load, 6 for helping an unstable
+    anchor, reload, link store, anchor CAS, 6 for its own stabilisation, `ret`), a pop at most 14
+    (`inv`, load, 6 for helping, reload, re-check, link load, anchor CAS, free, `ret`). -/
+def soloBound (push : Bool) : Nat := if push then 19 else 14
+
 structure St where
   n : Nat
   anchor : Anchor
